@@ -34,6 +34,7 @@ func src(n ast.Node) string {
 
 type pkgFuncs map[string]*ast.FuncDecl
 
+var funcFile = map[string]string{} // pkg.func -> base name of its file
 var pkgs = map[string]pkgFuncs{} // package name -> funcs (server sub-packages are uniquely named)
 var pkgDir = map[string]string{}
 
@@ -62,6 +63,7 @@ func load(root string) {
 					n = strings.TrimPrefix(src(fd.Recv.List[0].Type), "*") + "." + n
 				}
 				pkgs[name][n] = fd
+				funcFile[name+"."+n] = filepath.Base(p)
 			}
 		}
 		return nil
@@ -326,21 +328,55 @@ type goFact struct {
 	recovers        bool
 }
 
-func hasDeferredRecover(body *ast.BlockStmt) bool {
+// callsRecoverDirectly: the body calls recover() itself (not inside a nested function literal), which is what makes a
+// deferred call of that function stop a panic
+func callsRecoverDirectly(body *ast.BlockStmt) bool {
 	found := false
+	ast.Inspect(body, func(n ast.Node) bool {
+		if _, ok := n.(*ast.FuncLit); ok {
+			return false
+		}
+		if ce, ok := n.(*ast.CallExpr); ok {
+			if id, ok := ce.Fun.(*ast.Ident); ok && id.Name == "recover" {
+				found = true
+			}
+		}
+		return true
+	})
+	return found
+}
+
+// hasDeferredRecover: a top-level `defer func() { … recover() … }()` or `defer helper(…)` where helper calls recover() itself
+func hasDeferredRecover(pkg string, body *ast.BlockStmt) bool {
 	for _, st := range body.List {
-		if d, ok := st.(*ast.DeferStmt); ok {
-			ast.Inspect(d, func(n ast.Node) bool {
-				if ce, ok := n.(*ast.CallExpr); ok {
-					if id, ok := ce.Fun.(*ast.Ident); ok && id.Name == "recover" {
-						found = true
-					}
-				}
+		d, ok := st.(*ast.DeferStmt)
+		if !ok {
+			continue
+		}
+		switch f := d.Call.Fun.(type) {
+		case *ast.FuncLit:
+			if callsRecoverDirectly(f.Body) {
 				return true
-			})
+			}
+		default:
+			if t := resolve(pkg, f); t != nil && callsRecoverDirectly(t.Body) {
+				return true
+			}
 		}
 	}
-	return found
+	return false
+}
+
+// pkgOf finds the package a resolved declaration lives in
+func pkgOf(fd *ast.FuncDecl) string {
+	for pkg, fs := range pkgs {
+		for _, d := range fs {
+			if d == fd {
+				return pkg
+			}
+		}
+	}
+	return ""
 }
 
 func goroutines() []goFact {
@@ -356,12 +392,12 @@ func goroutines() []goFact {
 				switch f := g.Call.Fun.(type) {
 				case *ast.FuncLit:
 					gf.target = "func-literal"
-					gf.recovers = hasDeferredRecover(f.Body)
+					gf.recovers = hasDeferredRecover(pkg, f.Body)
 					// a literal that only calls one function: look into that function too
 					if !gf.recovers {
 						ast.Inspect(f.Body, func(x ast.Node) bool {
 							if ce, ok := x.(*ast.CallExpr); ok {
-								if t := resolve(pkg, ce.Fun); t != nil && hasDeferredRecover(t.Body) {
+								if t := resolve(pkg, ce.Fun); t != nil && hasDeferredRecover(pkgOf(t), t.Body) {
 									gf.recovers = true
 								}
 							}
@@ -370,7 +406,7 @@ func goroutines() []goFact {
 					}
 				default:
 					if t := resolve(pkg, g.Call.Fun); t != nil {
-						gf.recovers = hasDeferredRecover(t.Body)
+						gf.recovers = hasDeferredRecover(pkgOf(t), t.Body)
 					}
 				}
 				out = append(out, gf)
@@ -527,6 +563,35 @@ func main() {
 	b.WriteString("def goroutines : List GoFact := [\n")
 	for _, g := range goroutines() {
 		fmt.Fprintf(&b, "  { pkg := %s, inFunc := %s, target := %s, recovers := %s },\n", lb(g.pkg), lb(g.in), lb(g.target), bl(g.recovers))
+	}
+	b.WriteString("]\n\n")
+
+	// calls that end the process from inside the service packages (not cmd/*, not the test-support files)
+	b.WriteString("structure ExitFact where\n  pkg : Bytes\n  inFunc : Bytes\n  call : Bytes\nderiving Repr\n\n")
+	b.WriteString("def exitCalls : List ExitFact := [\n")
+	var exits []string
+	for pkg, fs := range pkgs {
+		if strings.HasPrefix(pkg, "cmd_") {
+			continue
+		}
+		for name, fd := range fs {
+			if strings.HasPrefix(funcFile[pkg+"."+name], "testing_") {
+				continue
+			}
+			ast.Inspect(fd.Body, func(n ast.Node) bool {
+				if ce, ok := n.(*ast.CallExpr); ok {
+					c := src(ce.Fun)
+					if c == "panic" || c == "os.Exit" || strings.HasPrefix(c, "log.Fatal") || strings.HasPrefix(c, "log.Panic") {
+						exits = append(exits, fmt.Sprintf("  { pkg := %s, inFunc := %s, call := %s },\n", lb(pkg), lb(name), lb(c)))
+					}
+				}
+				return true
+			})
+		}
+	}
+	sort.Strings(exits)
+	for _, e := range exits {
+		b.WriteString(e)
 	}
 	b.WriteString("]\n\nend Raven.Gen\n")
 	if err := os.WriteFile(*out+"/Facts.lean", []byte(b.String()), 0644); err != nil {
